@@ -60,7 +60,7 @@ for d in sorted(os.listdir(root)):
                 det[cur]["first_fingerprints"].append(line.split("fingerprint:", 1)[1].strip())
             elif line.startswith("repo HEAD:"):
                 head = line.split(":", 1)[1].strip()
-    rnd = 1 if int(m.group(2)) <= 2 else 2
+    rnd = (int(m.group(2)) + 1) // 2
     meta = {
         "id": d,
         "property": m.group(1),
